@@ -587,6 +587,17 @@ def exAdmin (m n : String) (k : Option String) : Event :=
 
 /-! ## Acknowledged ⇒ durable (storage faults, retries, crashes) -/
 
+/-- state.rs, as it is now: on the way from `set_db_api_key` through `store_api_key` and
+`persist_api_keys` to `save_extension_from` (and from `persist_registry` to it) there is no early
+non-error `return` and no enclosing conditional other than `if let Some(db) = <primary>` — the model's
+`persistKeys` / `persistRegistry` have no skip path because the code has none; the one conditional
+store is `remove_db_api_key`'s (modelled: `.removed false` without persisting; see the counterexample
+below). An "unchanged, skip" test added to any of these flips a fact here. -/
+theorem persistence_paths_frozen :
+    persistKeysUnconditional = true ∧ persistRegistryUnconditional = true ∧ storeAlwaysPersists = true ∧
+    setAlwaysStores = true ∧ removeStoresConditionally = true := by
+  decide
+
 /-- **acknowledged_implies_durable.** Whatever the state — a read-only primary, an armed fault, an
 engine copy of the extensions left over from an earlier failed PUT — if a request is answered with
 the result of `db.set_api_key`, or of `db.remove_api_key` with `true`, then the durable key map
